@@ -78,8 +78,18 @@ Definition is_bfun (v : vm) (b : bop) (f : value) : Prop :=
     decode i1 = {| f_op := bop_code b; f_k0 := AddrLcl; f_k1 := 0; f_k2 := 0; f_a0 := 0; f_a1 := 0; f_a2 := 0 |} /\
     decode i2 = {| f_op := RET; f_k0 := AddrStck; f_k1 := 0; f_k2 := 0; f_a0 := 0; f_a1 := 0; f_a2 := 0 |}.
 
+(* read: no parameter, no local; READ, then RET *)
+Definition is_rfun (v : vm) (f : value) : Prop :=
+  exists morph fid fr i1 i2,
+    f = VFun morph fid /\ fn_params morph = 0 /\ fn_locals morph = 0 /\
+    assoc_get (v_frames v) fid = Some fr /\
+    znth (v_cs v) (fn_node morph) = Some i1 /\ znth (v_cs v) (fn_node morph + 1) = Some i2 /\
+    decode i1 = {| f_op := READ; f_k0 := 0; f_k1 := 0; f_k2 := 0; f_a0 := 0; f_a1 := 0; f_a2 := 0 |} /\
+    decode i2 = {| f_op := RET; f_k0 := AddrStck; f_k1 := 0; f_k2 := 0; f_a0 := 0; f_a1 := 0; f_a2 := 0 |}.
+
 Definition bcode (v : vm) : Prop :=
-  forall nm b mo fid, bop_of_name nm = Some b -> Bf nm = VFun mo fid -> is_bfun v b (Bf nm).
+  (forall nm b mo fid, bop_of_name nm = Some b -> Bf nm = VFun mo fid -> is_bfun v b (Bf nm)) /\
+  (forall mo fid, Bf "read" = VFun mo fid -> is_rfun v (Bf "read")).
 
 (* running the code of a statement *)
 Definition RunsS (M : meaning) (d : bool) (s s2 sd : cstate) (P : list Z) (K A : Z) : Prop :=
@@ -152,10 +162,11 @@ Qed.
 
 (* ================= g = e ================= *)
 Lemma ssem_assign n W g e W' res :
+  pure e = true ->
   ssem n W (NAssign (NName g) e) = Some (W', res) ->
   exists G0, sem_simple (w_glob W) (NAssign (NName g) e) = (G0, res) /\ W' = wglob W G0.
 Proof.
-  destruct n as [|n]; [discriminate|]. cbn [StmtSem.ssem]. destruct (Nat.leb (height e) n); [|discriminate].
+  intros Hp. destruct n as [|n]; [discriminate|]. cbn [StmtSem.ssem]. rewrite Hp. destruct (Nat.leb (height e) n); [|discriminate].
   intros H. injection H as <- <-. eexists. split; [apply surjective_pairing|reflexivity].
 Qed.
 
@@ -163,11 +174,11 @@ Lemma wglob_wof v : wglob (wof v) (v_globals v) = wof v.
 Proof. reflexivity. Qed.
 
 Lemma assign_specS g e d sel s s' w :
-  assign_ok g e = true -> 0 <= sel <= 2 -> wfcs s ->
+  pure e = true -> 0 <= sel <= 2 -> wfcs s ->
   comp (NAssign (NName g) e) sel (tfl d) s = COk (w, s') ->
   SpecS (NAssign (NName g) e) d sel s s' w.
 Proof.
-  intros Hok Hsel Hwf H. unfold assign_ok in Hok. pose proof Hok as Hp.
+  intros Hp Hsel Hwf H.
   rewrite comp_assign_unfold in H. destruct (is_inc g e) eqn:Hinc.
   - (* INC *)
     apply cbind_ok in H. destruct H as [w0 [s2 [Href H]]].
@@ -192,7 +203,7 @@ Proof.
     + right. right. right. left. reflexivity.
     + intros _. split; discriminate.
     + intros n rr v mid m r G' res Hbc Hc Hdat Hm Hsp Hip HM.
-      apply ssem_assign in HM. destruct HM as [G0 [HM ->]]. change (w_glob (wof v)) with (v_globals v) in HM.
+      apply (ssem_assign _ _ _ _ _ _ Hp) in HM. destruct HM as [G0 [HM ->]]. change (w_glob (wof v)) with (v_globals v) in HM.
       cbn [sem_simple] in HM. rewrite (den_inc g e (v_globals v) Hinc) in HM.
       apply code_at_cons in Hc. destruct Hc as [Hi_inc _].
       assert (Hname : znth (v_ds v) (nds s) = Some (VStr g)).
@@ -240,7 +251,7 @@ Proof.
     + right. right. right. left. reflexivity.
     + intros _. split; discriminate.
     + intros n rr v mid m r G' res Hbc Hc Hdat Hm Hsp Hip HM.
-      apply ssem_assign in HM. destruct HM as [G0 [HM ->]]. change (w_glob (wof v)) with (v_globals v) in HM.
+      apply (ssem_assign _ _ _ _ _ _ Hp) in HM. destruct HM as [G0 [HM ->]]. change (w_glob (wof v)) with (v_globals v) in HM.
       cbn [sem_simple] in HM.
       pose proof (code_at_nth v (ncs s) code instr [] Hc) as Hi_mov.
       apply code_at_app in Hc. destruct Hc as [Hc _].
@@ -1946,9 +1957,9 @@ Proof.
 Qed.
 
 Lemma fetch_lcl0 v mid b0 ip fr ser x m1 mc :
-  in_frame b0 ip fr ser x m1 mc -> fetch (St v mid mc) mid AddrLcl 0 = Good (St v mid mc, x).
+  in_frame 1 b0 ip fr ser x m1 mc -> fetch (St v mid mc) mid AddrLcl 0 = Good (St v mid mc, x).
 Proof.
-  intros (F & _ & _ & _ & _ & X0 & _). unfold fetch.
+  intros (F & _ & _ & _ & _ & X0 & _). specialize (X0 eq_refl). unfold fetch.
   change (AddrLcl =? AddrStck) with false. change (AddrLcl =? AddrDS) with false.
   change (AddrLcl =? AddrCls) with false. change (AddrLcl =? AddrLcl) with true. cbv iota.
   rewrite St_get. cbn [obind]. unfold mLookUpLocal.
@@ -1960,10 +1971,10 @@ Qed.
 Lemma bop_step b rr v mid m1 mc r i1 b0 ip fr ser x :
   at_ip v r mid i1 ->
   decode i1 = {| f_op := bop_code b; f_k0 := AddrLcl; f_k1 := 0; f_k2 := 0; f_a0 := 0; f_a1 := 0; f_a2 := 0 |} ->
-  in_frame b0 ip fr ser x m1 mc -> 0 <= b0 -> m_sp mc = b0 + 2 -> m_sp mc <= zlen (m_stack mc) ->
+  in_frame 1 b0 ip fr ser x m1 mc -> 0 <= b0 -> m_sp mc = b0 + 2 -> m_sp mc <= zlen (m_stack mc) ->
   match snd (bop_sem b (wof v) x) with
   | Ok y => exists m4, step (St v mid mc) r rr = SNext (St (set_world v (fst (bop_sem b (wof v) x))) mid m4) r /\
-              in_frame b0 ip fr ser x m1 m4 /\ m_sp m4 = b0 + 3 /\ m_sp m4 <= zlen (m_stack m4) /\
+              in_frame 1 b0 ip fr ser x m1 m4 /\ m_sp m4 = b0 + 3 /\ m_sp m4 <= zlen (m_stack m4) /\
               znth (m_stack m4) (b0 + 2) = Some y /\ not_fun y
   | Fail err => exists ipe vals, step (St v mid mc) r rr = SErr (St v mid mc) (r_ctx r) ipe err vals /\
                   fst (bop_sem b (wof v) x) = wof v
@@ -1972,10 +1983,10 @@ Proof.
   intros Hat Hd Hin Hb0 Hsp Hle.
   assert (Hspc : 0 <= m_sp mc <= zlen (m_stack mc)) by lia.
   assert (Push : forall v' y, exists m4, vPush (St v' mid mc) mid y = Good (St v' mid m4) /\
-            in_frame b0 ip fr ser x m1 m4 /\ m_sp m4 = b0 + 3 /\ m_sp m4 <= zlen (m_stack m4) /\
+            in_frame 1 b0 ip fr ser x m1 m4 /\ m_sp m4 = b0 + 3 /\ m_sp m4 <= zlen (m_stack m4) /\
             znth (m_stack m4) (b0 + 2) = Some y).
   { intros v' y. destruct (vPush_St v' mid mc y Hspc) as [m4 [Hp [Hm4 [Hs4 Ht4]]]].
-    exists m4. split; [exact Hp|]. split; [apply (in_frame_msame b0 ip fr ser x m1 mc m4 (m_sp mc) Hin Hm4); lia|].
+    exists m4. split; [exact Hp|]. split; [apply (in_frame_msame 1 b0 ip fr ser x m1 mc m4 (m_sp mc) Hin Hm4); lia|].
     split; [lia|]. split; [destruct Hm4 as (_&_&_&_&_&B); lia|]. rewrite <- Hsp. exact Ht4. }
   destruct b; cbn [bop_code bop_sem fst snd] in *.
   - rewrite (step_write v mid mc r rr i1 _ _ _ _ _ _ Hat Hd), (fetch_lcl0 v mid b0 ip fr ser x m1 mc Hin).
@@ -1999,13 +2010,14 @@ Qed.
 Lemma lor3_reorder a b c : Z.lor (Z.lor a b) c = Z.lor (Z.lor b c) a.
 Proof. rewrite (Z.lor_comm a b), <- Z.lor_assoc, (Z.lor_comm a c), Z.lor_assoc. reflexivity. Qed.
 
-Lemma bcall_specS nm b e d sel s s' w :
+Lemma bcall_specS nm b e fl d sel s s' w :
   bop_of_name nm = Some b -> pure e = true -> 0 <= sel <= 2 -> wfcs s ->
-  comp (NCall (NName nm) [e]) sel (tfl d) s = COk (w, s') ->
+  withOpDepth 0 (pass fl) = tfl false ->
+  comp (NCall (NName nm) [e]) sel fl s = COk (w, s') ->
   SpecS (NCall (NName nm) [e]) d sel s s' w.
 Proof.
-  intros Hb Hp Hsel Hwf H. rewrite comp_call1_unfold in H.
-  change (withOpDepth 0 (pass (tfl d))) with (tfl false) in H.
+  intros Hb Hp Hsel Hwf Hfl H. rewrite comp_call1_unfold in H.
+  rewrite Hfl in H.
   apply cbind_ok in H. destruct H as [u1 [sA [Hargs H]]].
   apply cbind_ok in Hargs. destruct Hargs as [we [s1 [He Hargs]]].
   apply cbind_ok in Hargs. destruct Hargs as [u2 [s2 [Hpush Hret]]]. apply cret_ok in Hret. destruct Hret as [_ ->].
@@ -2076,16 +2088,17 @@ Proof.
       assert (Hm1' : cur_mid v r1 = Good mid) by (rewrite (cur_mid_ctx v r r1 Hc1); exact Hm).
       assert (Hat : at_ip v r1 mid instr).
       { split; [|exact Hm1']. rewrite Hi1. destruct L4 as (_ & N & _). rewrite <- N4, N. exact Hi_call. }
-      destruct (Hbc nm b mo fid Hb Hbf) as (morph & fid' & fr & i1 & i2 & Ef & Hpar & Hloc & Hfr & Hi1c & Hi2c & Hd1i & Hd2i).
+      destruct (proj1 Hbc nm b mo fid Hb Hbf) as (morph & fid' & fr & i1 & i2 & Ef & Hpar & Hloc & Hfr & Hi1c & Hi2c & Hd1i & Hd2i).
       rewrite Hbf in Ef. injection Ef as <- <-.
       assert (Hle1 : m_sp m1 <= zlen (m_stack m1)) by (destruct Hm1 as (_&_&_&_&_&B); lia).
-      destruct (call_enter rr v mid m1 r1 instr (nds s4) nm mo fid fr (m_sp m) x 0 0 Hat Hdi Hname Hg Hpar Hloc Hfr
-                  (proj1 Hsp) Hsp1 Hle1 Hx1) as [mc [Hs2 [Hin [Hspc Hlec]]]].
+      destruct (call_enter rr v mid m1 r1 instr (nds s4) nm mo fid fr 1 (m_sp m) x 0 0 Hat Hdi Hname Hg Hpar Hloc Hfr
+                  ltac:(lia) (proj1 Hsp) Hsp1 Hle1 (fun _ => Hx1)) as [mc [Hs2 [Hin [Hspc Hlec]]]].
       set (vb := vbump v) in *.
       set (r2 := with_ip (with_ip r1 (fn_node mo - 1)) (r_ip (with_ip r1 (fn_node mo - 1)) + 1)).
       assert (Hat2 : at_ip vb r2 mid i1).
       { split; [unfold r2; cbn [with_ip r_ip]; replace (fn_node mo - 1 + 1) with (fn_node mo) by lia; exact Hi1c|].
         change (cur_mid vb r2) with (cur_mid v r2). rewrite (cur_mid_ctx v r1 r2); [exact Hm1'|reflexivity]. }
+      replace (m_sp m + 1 + 1) with (m_sp m + 2) in Hspc by lia.
       pose proof (bop_step b rr vb mid m1 mc r2 i1 (m_sp m) (r_ip r1) fr (v_next v) x Hat2 Hd1i Hin (proj1 Hsp) Hspc Hlec) as Hbody.
       assert (EW : bop_sem b (wof vb) x = (wbump (fst (bop_sem b (wof v) x)), snd (bop_sem b (wof v) x))).
       { destruct b; reflexivity. }
@@ -2097,8 +2110,8 @@ Proof.
         assert (Hat3 : at_ip v3 r3 mid i2).
         { split; [unfold r3, r2; cbn [with_ip r_ip]; replace (fn_node mo - 1 + 1 + 1) with (fn_node mo + 1) by lia; exact Hi2c|].
           change (cur_mid v3 r3) with (cur_mid v r3). rewrite (cur_mid_ctx v r1 r3); [exact Hm1'|reflexivity]. }
-        destruct (call_leave rr v3 mid m1 m4 r3 i2 (m_sp m) (r_ip r1) fr (v_next v) x y 0 0 0 0 0 Hat3 Hd2i Hin4 (proj1 Hsp)
-                    Hsp4 Hle4 Hy Hnf) as [m5 [Hs4 (F5 & C5 & S5 & P5 & T5 & Hsp5 & Hle5 & Htop5)]].
+        destruct (call_leave rr v3 mid m1 m4 r3 i2 1 (m_sp m) (r_ip r1) fr (v_next v) x y 0 0 0 0 0 Hat3 Hd2i Hin4
+                    ltac:(lia) (proj1 Hsp) ltac:(lia) Hle4 ltac:(replace (m_sp m + 1 + 1) with (m_sp m + 2) by lia; exact Hy) Hnf) as [m5 [Hs4 (F5 & C5 & S5 & P5 & T5 & Hsp5 & Hle5 & Htop5)]].
         exists (k1 + 3)%nat, m5, (with_ip (with_ip r3 (r_ip r1)) (r_ip r1 + 1)).
         rewrite steps_app, Hs1. cbn [steps]. rewrite Hs2. cbv beta iota. fold r2. rewrite Hs3. cbv beta iota. fold r3.
         rewrite Hs4. cbv beta iota. conj.
@@ -2119,11 +2132,235 @@ Proof.
     + destruct HM as [-> ->]. exact E.
 Qed.
 
+(* ================= read() ================= *)
+Lemma comp_call0_unfold nm sel fl :
+  comp (NCall (NName nm) []) sel fl =
+  (cret tt ;;;
+   (addr <- here ;;
+    put_dbg addr nm 0 ;;;
+    i <- comp_ref (NName nm) 0 ;;
+    w <- enc 1 AddrImm 0 ;;
+    emit (Z.lor (Z.lor i (New CALL)) w) ;;;
+    enc sel AddrStck 0)).
+Proof. reflexivity. Qed.
+
+Lemma ssem_read n W W' res :
+  ssem n W (NCall (NName "read") []) = Some (W', res) ->
+  exists mo fid, gval (w_glob W) "read" = VFun mo fid /\ Bf "read" = VFun mo fid /\
+    W' = wbump (fst (read_sem W)) /\ res = snd (read_sem W).
+Proof.
+  destruct n as [|n]; [discriminate|]. cbn [StmtSem.ssem]. change (String.eqb "read" "read") with true. cbn [andb].
+  destruct (Nat.leb 1 n); cbn [andb]; [|discriminate].
+  destruct (fun_eqb (gval (w_glob W) "read") (Bf "read")) eqn:Ef; [|discriminate].
+  apply fun_eqb_eq in Ef. destruct Ef as [Eg [mo [fid Ebf]]].
+  intros H. injection H as <- <-. exists mo, fid. conj; [congruence|exact Ebf|reflexivity|reflexivity].
+Qed.
+
+Lemma read_range : 0 <= READ < 128. Proof. unfold READ. lia. Qed.
+
+Lemma read_step rr v mid m1 mc r i1 b0 ip fr ser x k0 k1 k2 a0 a1 a2 :
+  at_ip v r mid i1 ->
+  decode i1 = {| f_op := READ; f_k0 := k0; f_k1 := k1; f_k2 := k2; f_a0 := a0; f_a1 := a1; f_a2 := a2 |} ->
+  in_frame 0 b0 ip fr ser x m1 mc -> 0 <= b0 -> m_sp mc = b0 + 1 -> m_sp mc <= zlen (m_stack mc) ->
+  match snd (read_sem (wof v)) with
+  | Ok y => exists m4, step (St v mid mc) r rr = SNext (St (set_world v (fst (read_sem (wof v)))) mid m4) r /\
+              in_frame 0 b0 ip fr ser x m1 m4 /\ m_sp m4 = b0 + 2 /\ m_sp m4 <= zlen (m_stack m4) /\
+              znth (m_stack m4) (b0 + 1) = Some y /\ not_fun y
+  | Fail err => exists ipe vals, step (St v mid mc) r rr = SErr (St v mid mc) (r_ctx r) ipe err vals /\
+                  fst (read_sem (wof v)) = wof v
+  end.
+Proof.
+  intros Hat Hd Hin Hb0 Hsp Hle.
+  rewrite (step_read v mid mc r rr i1 _ _ _ _ _ _ Hat Hd). unfold read_sem. cbn [wof w_in].
+  destruct (v_in v) as [|l rest] eqn:Ein; cbn [fst snd].
+  - eexists. eexists. split; reflexivity.
+  - rewrite set_in_St.
+    assert (Hspc : 0 <= m_sp mc <= zlen (m_stack mc)) by lia.
+    destruct (vPush_St (set_in v rest) mid mc (VStr l) Hspc) as [m4 [Hp [Hm4 [Hs4 Ht4]]]].
+    rewrite Hp. cbn [obind lift next]. exists m4. conj.
+    + reflexivity.
+    + apply (in_frame_msame 0 b0 ip fr ser x m1 mc m4 (m_sp mc) Hin Hm4); lia.
+    + lia.
+    + destruct Hm4 as (_&_&_&_&_&B). lia.
+    + rewrite <- Hsp. exact Ht4.
+    + exact I.
+Qed.
+
+Lemma rcall_specS fl d sel s s' w :
+  0 <= sel <= 2 -> wfcs s ->
+  comp (NCall (NName "read") []) sel fl s = COk (w, s') ->
+  SpecS (NCall (NName "read") []) d sel s s' w.
+Proof.
+  intros Hsel Hwf H. rewrite comp_call0_unfold in H.
+  apply cbind_ok in H. destruct H as [u1 [sA [Hargs H]]]. apply cret_ok in Hargs. destruct Hargs as [_ ->].
+  apply cbind_ok in H. destruct H as [addr [s3 [Hh H]]]. apply here_ok in Hh. destruct Hh as [-> ->].
+  apply cbind_ok in H. destruct H as [u3 [s4 [Hdbg H]]]. apply put_dbg_ok in Hdbg. destruct Hdbg as (R4 & N4 & D4 & ND4).
+  apply cbind_ok in H. destruct H as [wg [s5 [Href H]]].
+  cbn [comp_ref] in Href. apply cbind_ok in Href. destruct Href as [ix [s5' [Hds Href]]].
+  apply add_ds_ok in Hds. destruct Hds as [-> ->]. apply enc_ok in Href. destruct Href as [-> Ewg].
+  apply cbind_ok in H. destruct H as [wi [s6 [Hi H]]]. apply enc_ok in Hi. destruct Hi as [-> Ewi].
+  apply cbind_ok in H. destruct H as [u4 [s7 [Hem Hres]]].
+  apply emit_ok in Hem. subst s7. apply enc_ok in Hres. destruct Hres as [-> Ew].
+  set (instr := Z.lor (Z.lor wg (New CALL)) wi) in *.
+  assert (Hdi : decode instr = {| f_op := CALL; f_k0 := AddrGbl; f_k1 := AddrImm; f_k2 := 0; f_a0 := nds s4; f_a1 := 0; f_a2 := 0 |}).
+  { unfold instr. rewrite lor3_reorder.
+    apply (decode_op01 CALL AddrGbl (nds s4) AddrImm 0 wg wi call_range gbl_range imm_range Ewg Ewi). }
+  set (s5 := with_data s4 (VStr "read")) in *.
+  assert (W4 : wfcs s4).
+  { destruct Hwf as [A1 B1]. unfold wfcs. rewrite R4, N4, D4, ND4. split; assumption. }
+  assert (W5 : wfcs s5).
+  { destruct W4 as [A1 B1]. unfold wfcs, s5, with_data, zlen in *; cbn [rcs ncs rds nds List.length]. split; lia. }
+  exists [instr], AddrStck, 0. conj.
+  - change [instr] with ([] ++ [instr]). apply lay_emit. unfold lay, s5, with_data; cbn [rcs ncs rds rev app].
+    conj; [exact R4|rewrite N4; unfold zlen; cbn; lia|exists [VStr "read"]; rewrite D4; reflexivity].
+  - apply wfcs_emitted. exact W5.
+  - exact Ew.
+  - left. reflexivity.
+  - intros _. split; discriminate.
+  - intros n rr v mid m r W' res Hbc Hc Hdat Hm Hsp Hip HM.
+    apply ssem_read in HM. destruct HM as (mo & fid & Hg & Hbf & -> & ->).
+    change (w_glob (wof v)) with (v_globals v) in *.
+    apply code_at_cons in Hc. destruct Hc as [Hi_call _].
+    assert (Hname : znth (v_ds v) (nds s4) = Some (VStr "read")).
+    { apply Hdat. cbn [emitted rds s5 with_data]. rewrite (proj2 W4). apply znth_rev_cons. }
+    assert (Hat : at_ip v r mid instr) by (split; [rewrite Hip; exact Hi_call|exact Hm]).
+    destruct (proj2 Hbc mo fid Hbf) as (morph & fid' & fr & i1 & i2 & Ef & Hpar & Hloc & Hfr & Hi1c & Hi2c & Hd1i & Hd2i).
+    rewrite Hbf in Ef. injection Ef as <- <-.
+    destruct (call_enter rr v mid m r instr (nds s4) "read" mo fid fr 0 (m_sp m) VNil 0 0 Hat Hdi Hname Hg Hpar Hloc Hfr
+                ltac:(lia) (proj1 Hsp) ltac:(lia) (proj2 Hsp) ltac:(intros E; discriminate E)) as [mc [Hs2 [Hin [Hspc Hlec]]]].
+    set (vb := vbump v) in *.
+    set (r2 := with_ip (with_ip r (fn_node mo - 1)) (r_ip (with_ip r (fn_node mo - 1)) + 1)).
+    assert (Hat2 : at_ip vb r2 mid i1).
+    { split; [unfold r2; cbn [with_ip r_ip]; replace (fn_node mo - 1 + 1) with (fn_node mo) by lia; exact Hi1c|].
+      change (cur_mid vb r2) with (cur_mid v r2). rewrite (cur_mid_ctx v r r2); [exact Hm|reflexivity]. }
+    replace (m_sp m + 0 + 1) with (m_sp m + 1) in Hspc by lia.
+    pose proof (read_step rr vb mid m mc r2 i1 (m_sp m) (r_ip r) fr (v_next v) VNil _ _ _ _ _ _ Hat2 Hd1i Hin (proj1 Hsp) Hspc Hlec) as Hbody.
+    assert (EW : read_sem (wof vb) = (wbump (fst (read_sem (wof v))), snd (read_sem (wof v)))).
+    { unfold read_sem, wbump, wof, vb, vbump, bump.
+      cbn [fst snd w_in w_glob w_out w_next v_in v_globals v_out v_next]. destruct (v_in v); reflexivity. }
+    rewrite EW in Hbody. cbn [fst snd] in Hbody.
+    destruct (snd (read_sem (wof v))) as [y|err] eqn:Er.
+    + destruct Hbody as [m4 [Hs3 [Hin4 [Hsp4 [Hle4 [Hy Hnf]]]]]].
+      set (v3 := set_world vb (wbump (fst (read_sem (wof v))))) in *.
+      set (r3 := with_ip r2 (r_ip r2 + 1)).
+      assert (Hat3 : at_ip v3 r3 mid i2).
+      { split; [unfold r3, r2; cbn [with_ip r_ip]; replace (fn_node mo - 1 + 1 + 1) with (fn_node mo + 1) by lia; exact Hi2c|].
+        change (cur_mid v3 r3) with (cur_mid v r3). rewrite (cur_mid_ctx v r r3); [exact Hm|reflexivity]. }
+      destruct (call_leave rr v3 mid m m4 r3 i2 0 (m_sp m) (r_ip r) fr (v_next v) VNil y 0 0 0 0 0 Hat3 Hd2i Hin4
+                  ltac:(lia) (proj1 Hsp) ltac:(lia) Hle4 ltac:(replace (m_sp m + 0 + 1) with (m_sp m + 1) by lia; exact Hy) Hnf)
+        as [m5 [Hs4 (F5 & C5 & S5 & P5 & T5 & Hsp5 & Hle5 & Htop5)]].
+      exists 3%nat, m5, (with_ip (with_ip r3 (r_ip r)) (r_ip r + 1)).
+      cbn [steps]. rewrite Hs2. cbv beta iota. fold r2. rewrite Hs3. cbv beta iota. fold r3.
+      rewrite Hs4. cbv beta iota. conj.
+      * unfold SG, v3, vb. unfold read_sem. cbn [wof w_in]. destruct (v_in v); reflexivity.
+      * unfold msame. split; [exact F5|]. split; [exact C5|]. split; [exact S5|]. split; [exact P5|].
+        split; [exact T5|lia].
+      * reflexivity.
+      * cbn [with_ip r_ip emitted ncs s5 with_data]. rewrite N4. lia.
+      * destruct d; [unfold stack_effect; cbn; lia|].
+        left. conj; [reflexivity|lia|exact Htop5].
+    + destruct Hbody as [ipe [vals [Hs3 EW2]]].
+      exists 2%nat, mc, ipe, vals.
+      cbn [steps]. rewrite Hs2. cbv beta iota. fold r2. rewrite Hs3.
+      replace (r_ctx r2) with (r_ctx r) by reflexivity.
+      rewrite EW2. reflexivity.
+Qed.
+
+(* ================= g = nm(e), g = read() ================= *)
+Lemma ssem_assign_call n W g e W' res :
+  pure e = false ->
+  ssem n W (NAssign (NName g) e) = Some (W', res) ->
+  exists n', n = S n' /\
+    match ssem n' W e with
+    | Some (W1, Ok y) => if is_nil y then W' = W1 /\ res = Fail ErrNil
+                         else W' = wglob W1 (sassoc_set (w_glob W1) g y) /\ res = Ok y
+    | Some (W1, Fail err) => W' = W1 /\ res = Fail err
+    | None => False
+    end.
+Proof.
+  intros Hp. destruct n as [|n]; [discriminate|]. cbn [StmtSem.ssem]. rewrite Hp. intros H. exists n. split; [reflexivity|].
+  destruct (ssem n W e) as [[W1 [y|err]]|]; [|injection H as <- <-; auto|discriminate H].
+  destruct (is_nil y); injection H as <- <-; auto.
+Qed.
+
+Lemma assign_call_specS g e d sel s s' w :
+  pure e = false -> is_inc g e = false ->
+  (forall s0 w0 s1, wfcs s0 -> comp e 0 (withAcceptTemp true (pass (tfl d))) s0 = COk (w0, s1) -> SpecS e false 0 s0 s1 w0) ->
+  0 <= sel <= 2 -> wfcs s ->
+  comp (NAssign (NName g) e) sel (tfl d) s = COk (w, s') ->
+  SpecS (NAssign (NName g) e) d sel s s' w.
+Proof.
+  intros Hp Hinc Hrhs Hsel Hwf H.
+  rewrite comp_assign_unfold, Hinc in H.
+  apply cbind_ok in H. destruct H as [we [s1 [He H]]].
+  apply cbind_ok in H. destruct H as [w1 [s2 [Href H]]].
+  cbn [comp_ref] in Href. apply cbind_ok in Href. destruct Href as [ix [s2' [Hds Href]]].
+  apply add_ds_ok in Hds. destruct Hds as [-> ->]. apply enc_ok in Href. destruct Href as [-> Ew1].
+  cbv zeta in H. apply cbind_ok in H. destruct H as [u0 [s3 [Hem Hres]]].
+  apply emit_ok in Hem. subst s3. apply enc_ok in Hres. destruct Hres as [-> Ew].
+  destruct (Hrhs s we s1 Hwf He) as [code [K [A (L1 & W1 & Ee & Sk & NT & X)]]].
+  destruct (NT eq_refl) as [NTmp NInv].
+  set (instr := Z.lor (Z.lor we w1) (New MOV)) in *.
+  assert (Hdi : decode instr = {| f_op := MOV; f_k0 := K; f_k1 := AddrGbl; f_k2 := 0; f_a0 := A; f_a1 := nds s1; f_a2 := 0 |}).
+  { unfold instr. replace (Z.lor (Z.lor we w1) (New MOV)) with (Z.lor (Z.lor (New MOV) w1) we).
+    - apply (decode_op01 MOV K A AddrGbl (nds s1) we w1 mov_range (skind_range K Sk) gbl_range Ee Ew1).
+    - rewrite (Z.lor_comm (Z.lor we w1)), (Z.lor_comm we w1), Z.lor_assoc. reflexivity. }
+  assert (HS1 : Src1 instr = AddrGbl /\ Src1Addr instr = nds s1).
+  { unfold decode in Hdi. injection Hdi as _ _ H1 _ _ H2 _. auto. }
+  destruct HS1 as [HS1 HS1a]. rewrite HS1, HS1a in Ew.
+  set (s2 := with_data s1 (VStr g)) in *.
+  assert (W2 : wfcs s2).
+  { destruct W1 as [A1 B1]. unfold wfcs, s2, with_data, zlen in *; cbn [rcs ncs rds nds List.length]. split; lia. }
+  exists (code ++ [instr]), AddrGbl, (nds s1). conj.
+  - apply lay_emit. destruct L1 as (R1 & N1 & [d1 D1]). unfold lay, s2, with_data; cbn [rcs ncs rds]. conj; try assumption.
+    exists (VStr g :: d1). rewrite D1. reflexivity.
+  - apply wfcs_emitted. exact W2.
+  - exact Ew.
+  - right. right. right. left. reflexivity.
+  - intros _. split; discriminate.
+  - intros n rr v mid m r W' res Hbc Hc Hdat Hm Hsp Hip HM.
+    apply (ssem_assign_call _ _ _ _ _ _ Hp) in HM. destruct HM as [n' [-> HM]].
+    pose proof (code_at_nth v (ncs s) code instr [] Hc) as Hi_mov.
+    apply code_at_app in Hc. destruct Hc as [Hc _].
+    assert (Hd1 : data_at v s1).
+    { intros i y Hy. apply Hdat. cbn [emitted rds s2 with_data rev]. apply znth_app_l. exact Hy. }
+    assert (Hname : znth (v_ds v) (nds s1) = Some (VStr g)).
+    { apply Hdat. cbn [emitted rds s2 with_data]. rewrite (proj2 W1). apply znth_rev_cons. }
+    destruct (ssem n' (wof v) e) as [[Wa [y|err]]|] eqn:Ee1; [| |contradiction].
+    + pose proof (X n' rr v mid m r Wa (Ok y) Hbc Hc Hd1 Hm Hsp Hip Ee1) as E. cbn beta iota in E.
+      destruct E as [k1 [m1 [r1 [Hs [Hm1 [Hc1 [Hi1 Ho]]]]]]].
+      set (v1 := set_world v Wa) in *.
+      assert (Hat : at_ip v1 r1 mid instr).
+      { split; [change (v_cs v1) with (v_cs v); rewrite Hi1; destruct L1 as (_ & N & _); rewrite N; exact Hi_mov|].
+        change (cur_mid v1 r1) with (cur_mid v r1). rewrite (cur_mid_ctx v r r1 Hc1). exact Hm. }
+      destruct (fetch_opnd v1 mid (m_sp m) m K A y m1 r1 Ho NTmp Hm1) as [m2 [Hf [Hm2 Hsp2]]].
+      assert (Hsrc : (if K =? AddrTmp then Good (St v1 mid m1, r_tmp r1) else fetch (St v1 mid m1) mid K A) = Good (St v1 mid m2, y)).
+      { rewrite (proj2 (Z.eqb_neq K AddrTmp) NTmp). exact Hf. }
+      pose proof (step_mov_gbl v1 mid m1 r1 rr instr K A (nds s1) 0 0 _ y g Hat Hdi Hsrc Hname) as Hstep.
+      change (v_globals (St v1 mid m2)) with (w_glob Wa) in Hstep.
+      destruct (is_nil y) eqn:Hnil.
+      * destruct HM as [-> ->]. exists (k1 + 1)%nat, m2, (r_ip r1), [y].
+        rewrite steps_app, Hs. unfold SG. fold v1. rewrite steps_one, Hstep. rewrite Hc1. reflexivity.
+      * destruct HM as [-> ->].
+        exists (k1 + 1)%nat, m2, (with_ip r1 (r_ip r1 + 1)).
+        rewrite steps_app, Hs. unfold SG. fold v1. rewrite steps_one, Hstep. conj.
+        -- unfold v1. destruct Wa; reflexivity.
+        -- exact Hm2.
+        -- cbn [with_ip r_ctx]. exact Hc1.
+        -- cbn [with_ip r_ip emitted ncs s2 with_data]. lia.
+        -- destruct d; [unfold stack_effect; cbn; lia|].
+           right. right. right. conj; [reflexivity|exact Hsp2|]. exists g. split; [exact Hname|].
+           cbn [set_world v_globals wglob w_glob]. symmetry. apply gval_set_same.
+    + destruct HM as [-> ->]. exact (X n' rr v mid m r Wa (Fail err) Hbc Hc Hd1 Hm Hsp Hip Ee1).
+Qed.
+
 (* ================= every statement ================= *)
 Section WInd.
   Variable Q : node -> Prop.
   Hypothesis HPure : forall t, pure t = true -> Q t.
-  Hypothesis HAssign : forall g e, assign_ok g e = true -> Q (NAssign (NName g) e).
+  Hypothesis HAssign : forall g e, pure e = true -> Q (NAssign (NName g) e).
+  Hypothesis HAssignCall : forall g e, pure e = false -> is_bcall e = true -> Q e -> Q (NAssign (NName g) e).
+  Hypothesis HRead : Q (NCall (NName "read") []).
   Hypothesis HBlock : forall l, l <> [] -> forallb wstmt l = true -> Forall Q l -> Q (NBlock l).
   Hypothesis HIf : forall c b, pure c = true -> wstmt b = true -> Q b -> Q (NIf c b).
   Hypothesis HIfElse : forall c a b, pure c = true -> wstmt a = true -> wstmt b = true -> Q a -> Q b -> Q (NIfElse c a b).
@@ -2138,14 +2375,18 @@ Section WInd.
     - apply andb_prop in Hw. destruct Hw as [Hw Hb]. apply andb_prop in Hw. destruct Hw as [Hc Ha].
       apply (HIfElse t1 t2 t3 Hc Ha Hb); apply wstmt_induction; assumption.
     - apply andb_prop in Hw. destruct Hw as [Hc Hb]. apply (HWhile t1 t2 Hc Hb). apply wstmt_induction. exact Hb.
-    - destruct t1; try discriminate Hw. apply HAssign. exact Hw.
+    - destruct t1; try discriminate Hw. unfold assign_ok in Hw. destruct (pure t2) eqn:Hp2.
+      + apply HAssign. exact Hp2.
+      + cbn [orb] in Hw. apply (HAssignCall _ _ Hp2 Hw). apply wstmt_induction.
+        destruct t2; try discriminate Hw. exact Hw.
     - assert (Hall : forallb wstmt l = true) by (destruct l; [discriminate Hw|exact Hw]).
       apply HBlock; [destruct l; [discriminate Hw|discriminate]|exact Hall|].
       clear Hw. induction l as [|x r IHr]; [constructor|].
       cbn [forallb] in Hall. apply andb_prop in Hall. destruct Hall as [Hx Hr].
       constructor; [apply wstmt_induction; exact Hx|apply IHr; exact Hr].
-    - destruct t; try discriminate Hw. destruct args as [|e [|e2 args]]; try discriminate Hw.
-      destruct (bop_of_name n) as [b|] eqn:Eb; [|discriminate Hw]. exact (HCall n b e Eb Hw).
+    - cbn [is_bcall] in Hw. destruct t; try discriminate Hw. destruct args as [|e [|e2 args]]; try discriminate Hw.
+      + apply String.eqb_eq in Hw. subst n. exact HRead.
+      + destruct (bop_of_name n) as [b|] eqn:Eb; [|discriminate Hw]. exact (HCall n b e Eb Hw).
     - apply HWrite. exact Hw.
   Defined.
 End WInd.
@@ -2155,6 +2396,15 @@ Proof.
   apply (wstmt_induction compiles_stmt).
   - intros t Hp d sel s w s' -> Hwf H. apply (pure_specS t d 0 s s' w Hp ltac:(lia) Hwf H).
   - intros g e Hok d sel s w s' -> Hwf H. apply (assign_specS g e d 0 s s' w Hok ltac:(lia) Hwf H).
+  - intros g e Hp Hbc _ d sel s w s' -> Hwf H.
+    apply (assign_call_specS g e d 0 s s' w Hp); try assumption; try lia.
+    + destruct e; try discriminate Hbc; reflexivity.
+    + intros s0 w0 s1 Hwf0 H0. destruct e; try discriminate Hbc. destruct e; try discriminate Hbc.
+      destruct args as [|a [|a2 args]]; try discriminate Hbc; cbn [is_bcall] in Hbc.
+      * apply String.eqb_eq in Hbc. subst n. apply (rcall_specS _ false 0 s0 s1 w0 ltac:(lia) Hwf0 H0).
+      * destruct (bop_of_name n) as [b|] eqn:Eb; [|discriminate Hbc].
+        apply (bcall_specS n b a _ false 0 s0 s1 w0 Eb Hbc ltac:(lia) Hwf0 eq_refl H0).
+  - intros d sel s w s' -> Hwf H. apply (rcall_specS _ d 0 s s' w ltac:(lia) Hwf H).
   - intros l Hne _ HF d sel s w s' Hsel Hwf H. rewrite comp_block_unfold in H.
     apply (block_specS d sel Hsel l Hne HF 0 s w s' Hwf H).
   - intros c b Hc _ Hb d sel s w s' -> Hwf H. destruct d.
@@ -2166,6 +2416,6 @@ Proof.
     + apply (while_discard_specS c b 0 s s' w ltac:(lia) Hc Hb Hwf H).
     + apply (while_value_specS c b s s' w Hc Hb Hwf H).
   - intros e Hp d sel s w s' -> Hwf H. apply (write_specS e d 0 s s' w Hp ltac:(lia) Hwf H).
-  - intros nm b e Hb Hp d sel s w s' -> Hwf H. apply (bcall_specS nm b e d 0 s s' w Hb Hp ltac:(lia) Hwf H).
+  - intros nm b e Hb Hp d sel s w s' -> Hwf H. apply (bcall_specS nm b e _ d 0 s s' w Hb Hp ltac:(lia) Hwf eq_refl H).
 Qed.
 End WithB.
